@@ -173,17 +173,15 @@ def _msg():
 
 
 def _ops():
-    op = st.one_of(
-        _msg().map(lambda m: ["write", m]),
-        _msg().map(lambda m: ["deliver", m]),
-        _msg().map(lambda m: ["deliver", m]),
-        _msg().map(lambda m: ["echo", m]),
-        st.tuples(_msg(), st.sampled_from(("\xff\xfe", "\x80", "ab\xe9", "\xc3\x28"))).map(lambda t: ["deliver_bin", t[0][:5], t[1]]),
-        st.just(["read"]),
-        st.just(["read"]),
-        st.just(["publish_fault"]),
-        st.just(["broker_error"]),
-        st.just(["disconnect"]),
+    op = gen.weighted(
+        (3, _msg().map(lambda m: ["write", m])),
+        (5, _msg().map(lambda m: ["deliver", m])),
+        (3, _msg().map(lambda m: ["echo", m])),
+        (2, st.tuples(_msg(), st.sampled_from(("\xff\xfe", "\x80", "ab\xe9", "\xc3\x28"))).map(lambda t: ["deliver_bin", t[0][:5], t[1]])),
+        (4, st.just(["read"])),
+        (1, st.just(["publish_fault"])),
+        (1, st.just(["broker_error"])),
+        (1, st.just(["disconnect"])),
     )
     return st.lists(op, min_size=0, max_size=14)
 
